@@ -48,7 +48,7 @@ NamedRel(name) == "Named_" \o name
 NamedRels == {NamedRel(n) : n \in NamedTargets}
 NameOfRel(rel) == CHOOSE n \in NamedTargets : NamedRel(n) = rel
 RelNames == {"FFNSPartition", "ZMTotalIsLight", "FONLLParts", "PositivitySum", "IsospinRotation",
-             "NCReducesToEM", "PositronFlip", "ChargeConjugation", "LeptonAsNeutrino", "EqualCharge", "TaggedSpectators"} \cup NamedRels
+             "NCReducesToEM", "PositronFlip", "ChargeConjugation", "LeptonAsNeutrino", "EqualCharge", "TaggedSpectators", "TaggedIsRestricted"} \cup NamedRels
 
 Term(coef, sets, rowmap) == [coef |-> coef, sets |-> sets, rowmap |-> rowmap]
 Id == "id"
@@ -79,6 +79,7 @@ RelApplies(rel, pt) ==
     [] rel = "EqualCharge"     -> c.ew.proc # "CC" /\ c.ew.pos = 0 /\ MasslessCell(c) /\ Supported(c)
                                   /\ (c.nf >= 5 \/ (c.nf >= 4 /\ c.Z = c.A))
     [] rel = "TaggedSpectators" -> c.ew.proc # "CC" /\ c.ew.pos = 0 /\ TaggedMassless(c) /\ Supported(c)
+    [] rel = "TaggedIsRestricted" -> c.ew.proc # "CC" /\ c.ew.pos = 0 /\ TaggedMassless(c) /\ Supported(c)
 \* the theorem itself, on the specification
 RelHolds(rel, pt) ==
   LET c == CellOfPt(pt) IN
@@ -94,6 +95,7 @@ RelHolds(rel, pt) ==
     [] rel = "LeptonAsNeutrino"  -> C13_ChargeConjugation(c)
     [] rel = "EqualCharge"     -> C13_EqualChargeExchange(c)
     [] rel = "TaggedSpectators" -> C13_TaggedSpectators(c)
+    [] rel = "TaggedIsRestricted" -> C07_TaggedIsRestricted(c)
 \* the relation as data on operator tensors:  sum_i coef_i RowMap_i Op(pt with sets_i) = 0
 RelTerms(rel, pt) ==
   LET c == CellOfPt(pt) IN
@@ -125,6 +127,8 @@ RelTerms(rel, pt) ==
          LET sb == c.nf >= 5  pr == c.nf >= 4 /\ c.Z = c.A IN
          << Term(One, <<>>, (IF sb THEN PickRow(3, 3) ELSE <<>>) \o (IF pr THEN PickRow(1, 1) \o PickRow(2, 2) ELSE <<>>)),
             Term(RI(-1), <<>>, (IF sb THEN PickRow(3, 5) ELSE <<>>) \o (IF pr THEN PickRow(1, 3) \o PickRow(2, 4) ELSE <<>>)) >>
+    [] rel = "TaggedIsRestricted" ->
+         << Term(One, <<>>, Id), Term(RI(-1), << <<"flav", "total">>, <<"pos", c.hq>> >>, Id) >>
     [] rel = "TaggedSpectators" ->
          \* every spectator row equals the row of the NEXT spectator (cyclically): rows of 1..nf without the tagged quark
          LET sp == SelectSeq(SetToSeqQ(1, c.nf), LAMBDA q : q # c.hq)
